@@ -3,6 +3,7 @@ import Emerge.Driver.Parse
 import Emerge.Driver.Spec
 import Emerge.Driver.Regex
 import Emerge.Driver.ParseEval
+import Emerge.Driver.Emitted
 /-
   Model driver: one case per input line, one result per output line (same protocol as the Go harness).
 -/
@@ -27,6 +28,7 @@ def dispatch (cmd : String) (fields : List String) : String :=
   | "renfa" => cmdReNFA fields
   | "respec" => cmdReSpec fields
   | "winner" => cmdWinner fields
+  | "emitscan" => cmdEmitScan fields
   | "renfafixed" => cmdReNFAFixed fields
   | "reast" => cmdReAST fields
   | _ => "UNKNOWN-COMMAND"
